@@ -165,7 +165,7 @@ class Cls(Shape):
     def on_assume(self, ctx, t):
         for f, sh in self.fields.items():
             acc = z3.simplify(V.nth(V.fs_of(t), self.info.fields.index(f)))
-            if isinstance(sh, (ListOf, OneOf, Cls, Rec)):
+            if isinstance(sh, (ListOf, OneOf, Cls, Rec)) or hasattr(sh, "pair_pred"):
                 _guarded_on_assume(ctx, sh, acc, z3.And(V.is_VObj(t), V.cls_of(t) == self.info.cid))
 
 
@@ -181,6 +181,16 @@ def _guarded_on_assume(ctx, sh, acc, guard):
         prev = table.get(xs.get_id())
         table[xs.get_id()] = fact if prev is None else (lambda v, _a=prev, _b=fact: z3.And(_a(v), _b(v)))
         ctx.__dict__.setdefault("elem_shape_objs", {}).setdefault(xs.get_id(), []).append((g, elem))
+        ctx.__dict__.setdefault("keepalive", []).append(xs)
+    elif hasattr(sh, "pair_pred"):        # DictOf: elements of the association list are well-formed pairs
+        xs = z3.simplify(V.vd(acc))
+        g = z3.And(guard, V.is_VDict(acc))
+
+        def fact(v, _sh=sh, _g=g):
+            return z3.Implies(_g, _sh.pair_pred(v))
+        table = ctx.__dict__.setdefault("elem_shapes", {})
+        prev = table.get(xs.get_id())
+        table[xs.get_id()] = fact if prev is None else (lambda v, _a=prev, _b=fact: z3.And(_a(v), _b(v)))
         ctx.__dict__.setdefault("keepalive", []).append(xs)
     elif isinstance(sh, OneOf):
         for a in sh.alts:
